@@ -18,7 +18,7 @@ TIERS = {
     'C06': T(200000, 30, 5000000, 600),
     'C07': T(200000, 30, 5000000, 800),
     'C08': T(200000, 30, 5000000, 700),
-    'C09': T(200000, 40, 5000000, 800),
+    'C09': T(200000, 35, 5000000, 800),
     'C10': T(200000, 25, 5000000, 500, quick={'secondary': {'tsan': {'count': 200000, 'seconds': 25, 'seed_offset': 500001}}},
              thorough={'secondary': {'tsan': {'count': 5000000, 'seconds': 500, 'seed_offset': 500001}}}),
     'C11': T(200000, 40, 5000000, 800),
@@ -28,7 +28,7 @@ TIERS = {
     'C16': T(200000, 40, 5000000, 800),
     'C17': T(200000, 40, 5000000, 800),
     'C19': T(200000, 35, 5000000, 700),
-    'C20': T(200000, 40, 5000000, 800),
+    'C20': T(200000, 30, 5000000, 800),
 }
 
 VARIANTS = {'C10': ['asan', 'tsan']}
